@@ -370,4 +370,6 @@ def gen_ctx_case(rng, lps=None, nps=None, max_ops=6, max_rows=30, arm_changes=Tr
     draws_in_tree = npk == "tree" and (kind == "thompson" or (kind == "greedy" and lp[1] > 0))
     if njobs and npk != "none" and not draws_in_tree and kind != "lints" and rng.random() < 0.25:
         case["n_jobs"] = rng.choice([2, 3]); case["backend"] = "threading"
+    if rng.random() < 0.2:
+        case["int_ctx"] = True      # training contexts are passed as int64 arrays (the values are integral anyway)
     return case
